@@ -438,6 +438,16 @@ func zzH_C12_iterate(t *zzT) {
 	t.Reach("end")
 }
 
+// C12.a Iterate with a NON-EMPTY requested prefix and store keys long enough to carry view prefix +
+// requested prefix + one more byte (2..3 bytes): the case in which the staged deletions that make room
+// in a limited scan must be counted under the full (view ‖ requested) prefix. Same oracle as
+// zzH_C12_iterate.
+//
+//zz:opt loop=16
+//zz:quick N=2 K=1 VLO=1 KLO=2 KHI=3 QLO=1
+//zz:thorough N=3 K=2 VLO=1 KLO=2 KHI=3 QLO=1
+func zzH_C12_iterate_long_keys(t *zzT) { zzH_C12_iterate(t) }
+
 // C12.a Iterate through a nested view (prefix length 2) while a sibling of its parent staged a
 // shorter full key: must not crash and must not see the foreign key.
 //
